@@ -32,6 +32,14 @@ Definition mh_accept64 (lp_x lp_y lq_xy lq_yx lnu : Z) : list Z :=
   [b2z (mh_accept binop_nan_pl64 (b64_of_bits lp_x) (b64_of_bits lp_y) (b64_of_bits lq_xy)
                   (b64_of_bits lq_yx) (b64_of_bits lnu))].
 
+(* the whole step on states named by integers (the harness's table-target states): next state *)
+Definition mh_step32 (x y : Z) (lp_x lp_y lq_xy lq_yx lnu : Z) : list Z :=
+  [mh_step binop_nan_pl32 x y (b32_of_bits lp_x) (b32_of_bits lp_y) (b32_of_bits lq_xy)
+           (b32_of_bits lq_yx) (b32_of_bits lnu)].
+Definition mh_step64 (x y : Z) (lp_x lp_y lq_xy lq_yx lnu : Z) : list Z :=
+  [mh_step binop_nan_pl64 x y (b64_of_bits lp_x) (b64_of_bits lp_y) (b64_of_bits lq_xy)
+           (b64_of_bits lq_yx) (b64_of_bits lnu)].
+
 (* ---- exact (real-number) kernel on a finite state space ---- *)
 From Coq Require Import Reals.
 Open Scope R_scope.
